@@ -32,10 +32,7 @@ Theorem C03_no_blackout :
     Forall wfl ls -> forallb exp_okb exps = true ->
     (exists c, In c ls /\ usable_spec now (c_timeout cfg) c = true) ->
     exists i, fst (select ls last now cfg exps) = Some i /\ (i < length ls)%nat.
-Proof.
-  intros ls last now cfg exps Hw He (c & Hin & Hu).
-  apply select_no_blackout; auto. apply existsb_exists. now exists c.
-Qed.
+Proof. exact no_blackout_In. Qed.
 
 (** The stall guard and the silence pull never gate the last usable uplink: after the gate pass
     some connected, registered, not-timed-out link is un-gated. *)
@@ -72,10 +69,7 @@ Theorem C03_select_writes_only_hidden :
   forall ls last now cfg exps,
     forallb exp_okb exps = true ->
     Forall2 (fun c c' => pv c' = pv c) ls (snd (select ls last now cfg exps)).
-Proof.
-  intros. pose proof (select_rel ls last now cfg exps H) as R.
-  induction R as [|a b l l' (P & _) R IH]; constructor; auto.
-Qed.
+Proof. exact select_writes_only_hidden. Qed.
 
 (** Headline: the model's own traces satisfy the monitor, for every history of loads, external
     updates and selects. *)
